@@ -278,6 +278,22 @@ struct Spec {
 	ng_max: f64,
 	/// a process call ran with the relative cutoff at the Nyquist clamp (integrators may have grown without bound)
 	wild: bool,
+	/// compressor: the release time in force as the documentation has it (seconds): the builder's fixed value, then
+	/// the fixed target of the last `set release` once its tween is certainly over; None while one is in flight
+	/// or after a change the bookkeeping cannot follow (modulator value, clock start time)
+	comp_release: Option<f64>,
+	/// written through the handle, not yet read by `start` (inner None: cannot be followed)
+	comp_release_cmd: Option<Option<(f64, f64, f64)>>,
+	/// (target, delay + duration, audio time seen, longest update) of the change read by the last `start`
+	comp_release_inflight: Option<(f64, f64, f64, f64)>,
+	/// a compressor parameter other than the release time was set through the handle
+	comp_other_set: bool,
+	/// compressor: the ratio may move between exactly 0 (dynamics unchanged, in domain since the repair) and a
+	/// non-zero value along a tween or a modulator mapping. On the way it takes arbitrarily small positive values,
+	/// i.e. it is an expander without bound (notes/C13_a.md: "ratios just above 0 expand without bound") - outside
+	/// the documented range {0} u [0.5, 100] the finiteness clause is claimed for. (Found when a generator change
+	/// moved the random stream: `set ratio fix:0 imm;25ms` on a ratio of ~2 gave 10^(huge) = inf, as it must.)
+	ratio_path_open: bool,
 }
 
 /// the compressor's gain slope in dB per dB over the threshold: `1/ratio − 1`, and 0 (dynamics unchanged, like
@@ -368,7 +384,52 @@ impl Spec {
 			sp.note_value(name, tok[i], *is32, *isdur);
 			i += 1;
 		}
+		sp.comp_release = if sp.kind == "comp" { sp.fixed.get("release").copied() } else { None };
 		sp
+	}
+	/// a `set` on a compressor: follow the release time
+	fn note_comp_set(&mut self, name: &str, value: &str, tween: &str) {
+		if self.kind != "comp" {
+			return;
+		}
+		if name != "release" {
+			self.comp_other_set = true;
+			return;
+		}
+		let p: Vec<&str> = tween.split(';').collect();
+		let delay = if p[0] == "imm" { Some(0.0) } else { p[0].strip_prefix("del:").map(|d| pu(d) as f64 * 1e-9) };
+		self.comp_release_cmd = Some(match (fixed_of(value, false, true), delay) {
+			(Some(target), Some(delay)) => Some((target, delay, pu(p[1]) as f64 * 1e-9)),
+			_ => None,
+		});
+	}
+	/// `on_start_processing` reads the last command written
+	fn note_comp_start(&mut self) {
+		match self.comp_release_cmd.take() {
+			Some(Some((target, delay, duration))) => {
+				self.comp_release = None;
+				self.comp_release_inflight = Some((target, delay + duration, 0.0, 0.0));
+			}
+			Some(None) => {
+				self.comp_release = None;
+				self.comp_release_inflight = None;
+			}
+			None => {}
+		}
+	}
+	/// process calls of the given slice lengths ran: the tween has certainly lasted (time seen - delay - longest
+	/// update), see `VolTrack::advance` in suite `mixer` for the argument; 1 us covers the countdown's ns rounding
+	fn note_comp_time(&mut self, part: &[usize], dt: f64) {
+		if let Some((target, need, seen, longest)) = self.comp_release_inflight.as_mut() {
+			for k in part {
+				*seen += dt * *k as f64;
+				*longest = longest.max(dt * *k as f64);
+			}
+			if *seen - *longest >= *need + 1e-6 {
+				self.comp_release = Some(*target);
+				self.comp_release_inflight = None;
+			}
+		}
 	}
 	fn note_value(&mut self, name: &str, v: &str, is32: bool, isdur: bool) {
 		if isdur {
@@ -380,6 +441,21 @@ impl Spec {
 			}
 			if self.kind == "comp" && name == "ratio" && (e as f32) == 0.0 {
 				self.ratio_zero = true;
+			}
+		}
+		if self.kind == "comp" && name == "ratio" {
+			let ends = ends_of(v, is32);
+			if ends.iter().any(|e| (*e as f32) == 0.0) && ends.iter().any(|e| (*e as f32) != 0.0) {
+				self.ratio_path_open = true;
+			}
+		}
+	}
+	/// a `set ratio` whose tween takes time, in a case where the ratio is or becomes exactly 0
+	fn note_ratio_tween(&mut self, name: &str, tween: &str) {
+		if self.kind == "comp" && name == "ratio" && self.ratio_zero {
+			let dur = tween.split(';').nth(1).map(pu).unwrap_or(0);
+			if dur > 0 {
+				self.ratio_path_open = true;
 			}
 		}
 	}
@@ -640,7 +716,9 @@ impl Run {
 		}
 		// ---- C13 oracles
 		if !all_finite(&m) {
-			out.oracle_fail("finite_output", op);
+			if !sp.ratio_path_open {
+				out.oracle_fail("finite_output", op);
+			}
 			return m;
 		}
 		if sp.fresh && m.iter().any(|f| f.left != 0.0 || f.right != 0.0) {
@@ -834,6 +912,52 @@ fn show_frames(fs: &[Frame]) -> String {
 	s
 }
 
+/// C14 "… with the configured attack and release time constants", for a release time configured at run time:
+/// a constant input below the threshold (target envelope 0) while the gain is still reduced is the release phase,
+/// where the envelope shrinks by exp(-dt/release) per frame (C14_compressor_envelope_contracts, release side) and
+/// the applied gain is envelope·slope dB on top of the make-up gain (C14_compressor_output). The gain in dB is read
+/// off the output, G_i = 20 log10(|out_i| / (|in|·makeup)), and has to follow G_i = G_0·exp(-dt/release)^i with the
+/// release time in force — the builder's, or the last one set through the handle once its tween is over.
+/// Premises: fully wet, every other parameter fixed and never set, a fixed release time certainly in force before
+/// the run began. Tolerance: reading G off an f32 output costs < 1e-5 dB (a few roundings of 2^-24 are 5e-7 dB
+/// each), the f32 recursion loses < 2^-23 of the value per frame: 1e-3·|G_0| + 2e-4 dB covers 8000 frames.
+fn comp_release_oracle(sp: &Spec, release: Option<f64>, sig: &str, amp: f32, dt: f64, m: &[Frame], op: &str, out: &mut Out) {
+	if !(sp.in_domain && sp.kind == "comp" && sig == "dc" && amp != 0.0 && !sp.comp_other_set && m.len() >= 2 && all_finite(m)) {
+		return;
+	}
+	let Some(release) = release else { return };
+	if !["threshold", "ratio", "attack", "makeup", "mix"].iter().all(|k| sp.fixed.contains_key(*k)) || sp.p("mix") < 1.0 {
+		return;
+	}
+	let a = (amp as f64).abs();
+	if !(20.0 * a.log10() - sp.p("threshold") < -0.5) || m.len() > 8000 {
+		return;
+	}
+	let mk = 10f64.powf(sp.p("makeup") / 20.0);
+	let gain_db = |v: f32| 20.0 * ((v as f64).abs() / (a * mk)).log10();
+	let (g0l, g0r) = (gain_db(m[0].left), gain_db(m[0].right));
+	if !(g0l.is_finite() && g0r.is_finite()) || g0l.abs() < 0.05 || g0r.abs() < 0.05 {
+		return;
+	}
+	evald(out, "comp_release_rate");
+	let s = if release == 0.0 { 0.0 } else { (-dt / release).exp() };
+	let n = m.len();
+	let tau = if release > 0.0 { ((release / dt).round() as usize).clamp(1, n - 1) } else { 1 };
+	for i in [1, tau, n / 8, n / 4, n / 2, n - 1] {
+		let decay = s.powi(i as i32);
+		for (g0, v) in [(g0l, m[i].left), (g0r, m[i].right)] {
+			let g = gain_db(v);
+			if !((g - g0 * decay).abs() <= 1e-3 * g0.abs() + 2e-4) {
+				out.oracle_fail(
+					"comp_release_rate",
+					format!("frame {} gain {:.6} dB documented {:.6} dB (release {} s) | {}", i, g, g0 * decay, release, op),
+				);
+				return;
+			}
+		}
+	}
+}
+
 /// radius of the slower pole of the trapezoidal SVF with coefficients g, k (bilinear image of s² + k s + 1 at g)
 pub fn pole_radius(g: f64, k: f64) -> f64 {
 	let d = k * k / 4.0 - 1.0;
@@ -916,6 +1040,7 @@ pub fn run(ops: &[String]) -> Vec<String> {
 					for i in [&mut r.main, &mut r.whole, &mut r.ly, &mut r.lsum, &mut r.lhalf].into_iter().chain(r.fresh.as_mut()) {
 						i.fx.on_start_processing();
 					}
+					r.spec.note_comp_start();
 					if let Some(m) = r.spec.pending_mode.take() {
 						r.spec.mode = m;
 						// new coefficients on both sides from here on: the settling time starts again
@@ -928,6 +1053,8 @@ pub fn run(ops: &[String]) -> Vec<String> {
 					let tw = parse_tween(tok[3], &ids);
 					r.main.set(tok[1], tok[2], tw, &ids);
 					r.spec.note_set(tok[1], tok[2]);
+					r.spec.note_comp_set(tok[1], tok[2], tok[3]);
+					r.spec.note_ratio_tween(tok[1], tok[3]);
 					out.put("ok");
 				}
 				"mode" => {
@@ -946,6 +1073,7 @@ pub fn run(ops: &[String]) -> Vec<String> {
 					let info = info_state.build();
 					let m = r.feed(&x, &part, dt, &info, l, out, false, &ids);
 					out.put(show_frames(&m));
+					r.spec.note_comp_time(&part, dt);
 					let sp = &r.spec;
 					if sp.in_domain && sp.is_static && sp.kind == "comp" && sp.p("mix") >= 1.0 {
 						let thr = sp.p("threshold") as f32;
@@ -970,7 +1098,10 @@ pub fn run(ops: &[String]) -> Vec<String> {
 					let part = vec![ibs; count];
 					let info = info_state.build();
 					let was_fresh = r.spec.fresh;
+					let release_in_force = r.spec.comp_release;
 					let m = r.feed(&x, &part, dt, &info, l, out, true, &ids);
+					r.spec.note_comp_time(&part, dt);
+					comp_release_oracle(&r.spec, release_in_force, sig, amp, dt, &m, l, out);
 					let (mut sum, mut nonfinite) = (0u32, 0u64);
 					for v in m.iter().flat_map(|f| [f.left, f.right]) {
 						if !v.is_finite() {
@@ -1461,6 +1592,38 @@ fn gen_probe(rng: &mut Rng, case: usize, thorough: bool, stats: &mut Stats, out:
 				let att = rng.pick(&[0u64, 100_000, 1_000_000, 2_000_000]);
 				let rel = rng.pick(&[0u64, 100_000, 1_000_000, 2_000_000]);
 				let makeup = rng.pick(&[0.0, 6.0, -6.0]);
+				if rng.chance(1, 2) {
+					// release probe: settle above the threshold, (mostly) give a new release time through the handle,
+					// let its tween run out, then drop below the threshold and watch the gain recover
+					stats.hit("probe_comp_release");
+					let ratio = rng.pick(&[2.0, 4.0, 8.0, 0.5, 20.0]);
+					let att = rng.pick(&[0u64, 100_000, 1_000_000]);
+					let pool = [0u64, 100_000, 1_000_000, 2_000_000, 5_000_000, 20_000_000];
+					let rel0 = rng.pick(&pool);
+					let rel1 = rng.pick(&pool);
+					out.push(format!(
+						"new comp {} {} fix:{} fix:{} {} {}",
+						fix64(thr), fix64(ratio), att, rel0, fix32(makeup), fix32(1.0)
+					));
+					out.push(format!("init {} 64", sr_hz));
+					let n1 = ((30.5 * att as f64 * 1e-9 / dt).ceil() as usize) / 64 + 2;
+					out.push(format!("run dc {} {} 0 {} 64 {}", o32(1.0), o64(0.0), o64(dt), n1));
+					let mut rel = rel0;
+					if rng.chance(3, 4) {
+						let delay = rng.pick(&[0u64, 0, 500_000]);
+						let dur = rng.pick(&[0u64, 1_000_000, 3_000_000]);
+						let start = if delay == 0 { "imm".to_string() } else { format!("del:{}", delay) };
+						out.push(format!("set release fix:{} {};{};{}", rel1, start, dur, fmt_easing(&gen_easing(rng))));
+						out.push("start".into());
+						let n2 = (((delay + dur) as f64 * 1e-9 / dt).ceil() as usize) / 64 + 3;
+						out.push(format!("run dc {} {} 0 {} 64 {}", o32(1.0), o64(0.0), o64(dt), n2));
+						rel = rel1;
+					}
+					let n3 = (((3.0 * rel as f64 * 1e-9 / dt).ceil() as usize) / 64 + 4).min(100);
+					out.push(format!("run dc {} {} 0 {} 64 {}", o32(0.01), o64(0.0), o64(dt), n3));
+					stats.add("run_frames", (64 * (n1 + n3)) as u64);
+					return;
+				}
 				let tau = att.max(rel) as f64 * 1e-9;
 				let n = ((30.5 * tau / dt).ceil() as usize).max(8);
 				if n > budget {
